@@ -23,7 +23,9 @@ mod = importlib.import_module('props.C19')
 
 F = {
     'C19-F1': ('expr -> pattern: a `|` whose left operand is parenthesised in source, `(a | b) | c`, becomes a nested MatchOr on the '
-               'formatted route and a flat MatchOr on the pure-AST route (structurally different results for the same tree)',
+               'formatted route and a flat MatchOr on the pure-AST route (structurally different results for the same tree; each result is '
+               'valid on its own). Kept: flattening on the formatted route too (3 lines, removes the parentheses) changes 4 golden '
+               'recordings of the pinned suite (test_put_one_from_data, test_put_one_raw_from_put_one_data, test_code_as_coerce, ...)',
                'C19|BinOp->pattern|s2/both|fmt!=pure(MatchOr nesting)'),
     'C19-F2': ('pattern -> expr: a MatchSequence written `a, b` or `(a, b)` becomes a Tuple on the formatted route and a List on the '
                'pure-AST route (any expression-like target)',
